@@ -256,12 +256,12 @@ class Gen:
             vals = r.sample([0, 1, 2, 3, 0x7fffffff, -1, 200, 65536], r.randrange(1, 4))
             for v in vals:
                 body.append(s_case(v))
-                body += self.stmts(self.scope(sc), r.randrange(0, 3), depth + 1, inloop)
+                body.append(s_block(self.stmts(self.scope(sc), r.randrange(0, 3), depth + 1, inloop)))   # (a block: no jump into the scope of a VLA)
                 if r.random() < 0.7:
                     body.append(s_break())
             if r.random() < 0.6:
-                body.insert(r.choice([0, len(body)]), s_default()) if False else body.append(s_default())
-                body += self.stmts(self.scope(sc), r.randrange(1, 3), depth + 1, inloop)
+                body.append(s_default())
+                body.append(s_block(self.stmts(self.scope(sc), r.randrange(1, 3), depth + 1, inloop)))
             return [s_switch(sel, body)]
         if self.funcs:
             f = r.choice([g for g in self.funcs if "_sid" not in g] or [None])
@@ -326,8 +326,45 @@ class Gen:
                 fn = func(name, St(sid), [(a, St(sid)), (k, T("int"))], s_block(body))
                 fn["_sid"] = sid
                 self.funcs.append(fn)
+        self.vcalls = []
+        if charsigned and r.random() < 0.6:
+            # variadic function (x86_64-sysv only: the native executor uses the host va_list): named parameters of assorted
+            # arithmetic types (argument converted as if by assignment), trailing arguments after default promotions
+            name = self.fresh("fv")
+            ptypes = [r.choice(ALL + ["float", "double", "long", "bool"]) for _ in range(r.randrange(1, 4))]
+            params = [(self.fresh("q"), TY(t)) for t in ptypes]
+            ttypes = [r.choice(ALL + ["float", "double"]) for _ in range(r.randrange(1, 4))]
+            prom = lambda t: "double" if t in ("float", "double") else ("int" if W.get(t, 64) < 32 else t)
+            acc = self.fresh("acc")
+            body = [s_decl(acc, T("ulong"), i_e(lit("ulong", 7)))]
+            for (n, t), tn in zip(params, ptypes):
+                body.append(s_asg("=", var(acc), bin_("+", bin_("*", var(acc), lit("ulong", 31)), cast(T("ulong"), cast(T("llong"), var(n))))))
+            for tn in ttypes:
+                x = self.fresh("x")
+                body += [s_decl(x, TY(prom(tn))), s_va_arg(var(x), TY(prom(tn))),
+                         s_asg("=", var(acc), bin_("+", bin_("*", var(acc), lit("ulong", 31)), cast(T("ulong"), cast(T("llong"), var(x)))))]
+            body.append(s_ret(var(acc)))
+            self.funcs.append(func(name, T("ulong"), params, s_block(body), variadic=True))
+            self.funcs[-1]["_sid"] = -1
+            for _ in range(r.randrange(1, 4)):
+                args = []
+                for tn in ptypes + ttypes:
+                    if tn in ("float", "double"):
+                        e = flit(tn, r.random() < 0.4, r.choice([0, 1, 2, 3, 100, 255, 65536]))
+                        if r.random() < 0.4:
+                            e = lit("int", r.choice([-7, 0, 2, 300]))       # integer argument for a floating parameter
+                    else:
+                        e = self.lit_for(r.choice(ALL)) if r.random() < 0.6 else self.atom(g)
+                    args.append(e)
+                # trailing arguments are given the intended type explicitly (the callee reads them back with va_arg of the promoted type)
+                for j, tn in enumerate(ttypes):
+                    args[len(ptypes) + j] = cast(TY(tn), args[len(ptypes) + j]) if tn not in ("float", "double") or args[len(ptypes) + j]["k"] != "flit" else args[len(ptypes) + j]
+                self.vcalls.append((name, args))
         sc = self.scope(g)
         body = self.stmts(sc, r.randrange(6, 14), 0)
+        for name, args in self.vcalls:
+            u = self.fresh("u")
+            body += [s_decl(u, T("ulong"), i_e(lit("ulong", 0))), s_call(name, args, var(u)), s_obs(var(u))]
         for n in list(sc["ints"])[:8]:
             body.append(s_obs(var(n)))
         for a, (t, ln) in sc["arrs"].items():
